@@ -28,7 +28,7 @@ def main(only=None):
             sid = '%s-%s' % (pid, tag[-1])
             demo = d + '/%s_demo.py' % tag
             note = d + '/%s.md' % tag
-            wt = '/tmp/vet_wt'
+            wt = '/tmp/vet_wt_%d' % os.getpid()
             sh('git -C /repo worktree remove --force %s' % wt)
             shutil.rmtree(wt, ignore_errors=True)
             r = sh('git -C /repo worktree add -q --detach %s HEAD' % wt)
